@@ -290,6 +290,20 @@ pub struct RangeStatement<P: Compressable + Precomputable> {''')], 'R-C07-5'),
         Q_RENAME_WEIGHT, Q_ERRMSG,
     ],
     'C11': [
+        ('h-iterator-clamped-by-the-wrong-capacity', 'fire', [(BG, '''        AggregatedGensIter {
+            n,
+            m,
+            array: &self.h_vec,''', '''        AggregatedGensIter {
+            n: n.min(self.gens_capacity),
+            m: m.min(self.gens_capacity),
+            array: &self.h_vec,''')], 'R-C11-6'),
+        ('h-iterator-clamped-by-its-own-capacities', 'quiet', [(BG, '''        AggregatedGensIter {
+            n,
+            m,
+            array: &self.h_vec,''', '''        AggregatedGensIter {
+            n: n.min(self.gens_capacity),
+            m: m.min(self.party_capacity),
+            array: &self.h_vec,''')], None),
         ('h-tag-stored-at-byte-1', 'fire', [(BG, "            label[0] = b'H';", "            label[1] = b'H';")], 'R-C11-1'),
         ('same-tag-for-both-chains', 'fire', [(BG, "            label[0] = b'H';", "            label[0] = b'G';")], 'R-C11-1'),
         ('label-from-capacity', 'fire', [(BG, '            LittleEndian::write_u32(&mut label[1..5], party_index);', '            LittleEndian::write_u32(&mut label[1..5], party_capacity as u32);')], 'R-C11-1'),
@@ -333,6 +347,24 @@ pub struct RangeStatement<P: Compressable + Precomputable> {''')], 'R-C07-5'),
         Q_ERRMSG, Q_ZEROIZING_PUBLIC,
     ],
     'C14': [
+        ('round-messages-absorbed-into-a-copy', 'fire', [(TR, '''        self.transcript.validate_and_append_point(b"L", l)?;
+        self.transcript.validate_and_append_point(b"R", r)?;
+
+        // Update the RNG
+        self.transcript_rng = Self::build_rng(self.transcript, self.bytes.as_ref(), self.external_rng);
+
+        // Return the challenge
+        self.transcript.challenge_scalar(b"e")''', '''        let mut staged = self.transcript.clone();
+        staged.validate_and_append_point(b"L", l)?;
+        staged.validate_and_append_point(b"R", r)?;
+
+        // Update the RNG
+        self.transcript_rng = Self::build_rng(self.transcript, self.bytes.as_ref(), self.external_rng);
+
+        // Return the challenge
+        let e = staged.challenge_scalar(b"e");
+        *self.transcript = staged;
+        e''')], 'R-C14-3'),
         ('stored-witness-bytes-dropped-under-a-seed', 'fire', [(TR, '''        let rng = Self::build_rng(transcript, bytes.as_ref(), external_rng);
 ''', '''        let rng = Self::build_rng(transcript, bytes.as_ref(), external_rng);
         let bytes = bytes.filter(|_| statement.seed_nonce.is_none());
@@ -348,6 +380,8 @@ pub struct RangeStatement<P: Compressable + Precomputable> {''')], 'R-C07-5'),
         Q_EXTRACT_PROMISE_LOOP, Q_ERRMSG,
     ],
     'C15': [
+        ('decoder-reads-at-most-64-pairs', 'fire', [(RP, '        // Extract the inner-product folding vectors `li` and `ri`\n        let mut tuples = chunks.by_ref().tuples::<(&[u8], &[u8])>();\n        let (li, ri): (\n            Vec<<P as Compressable>::Compressed>,\n            Vec<<P as Compressable>::Compressed>,\n        ) = tuples\n            .by_ref()\n            .map(|(l, r)| {\n                let bytes_l: [u8; SERIALIZED_ELEMENT_SIZE] = l\n                    .try_into()\n                    .map_err(|_| ProofError::InvalidLength("Unexpected deserialization failure".to_string()))?;\n                let bytes_r: [u8; SERIALIZED_ELEMENT_SIZE] = r\n                    .try_into()\n                    .map_err(|_| ProofError::InvalidLength("Unexpected deserialization failure".to_string()))?;\n                Ok((\n                    <P as Compressable>::Compressed::from_fixed_bytes(bytes_l),\n                    <P as Compressable>::Compressed::from_fixed_bytes(bytes_r),\n                ))\n            })\n            .collect::<Result<Vec<_>, _>>()?\n            .into_iter()\n            .unzip();\n\n', '        // Extract the inner-product folding vectors `li` and `ri`\n        let remaining = chunks.len();\n        let rounds = (remaining / 2).min(usize::BITS as usize);\n        let mut li = Vec::with_capacity(rounds);\n        let mut ri = Vec::with_capacity(rounds);\n        for _ in 0..rounds {\n            li.push(parse_point(&mut chunks)?);\n            ri.push(parse_point(&mut chunks)?);\n        }\n\n'), (RP, '        if tuples.into_buffer().len() > 0 || !chunks.remainder().is_empty() {', '        if remaining % 2 != 0 || !chunks.remainder().is_empty() {')], 'R-C15-1'),
+        ('decoder-counted-loop-over-all-pairs', 'quiet', [(RP, '        // Extract the inner-product folding vectors `li` and `ri`\n        let mut tuples = chunks.by_ref().tuples::<(&[u8], &[u8])>();\n        let (li, ri): (\n            Vec<<P as Compressable>::Compressed>,\n            Vec<<P as Compressable>::Compressed>,\n        ) = tuples\n            .by_ref()\n            .map(|(l, r)| {\n                let bytes_l: [u8; SERIALIZED_ELEMENT_SIZE] = l\n                    .try_into()\n                    .map_err(|_| ProofError::InvalidLength("Unexpected deserialization failure".to_string()))?;\n                let bytes_r: [u8; SERIALIZED_ELEMENT_SIZE] = r\n                    .try_into()\n                    .map_err(|_| ProofError::InvalidLength("Unexpected deserialization failure".to_string()))?;\n                Ok((\n                    <P as Compressable>::Compressed::from_fixed_bytes(bytes_l),\n                    <P as Compressable>::Compressed::from_fixed_bytes(bytes_r),\n                ))\n            })\n            .collect::<Result<Vec<_>, _>>()?\n            .into_iter()\n            .unzip();\n\n', '        // Extract the inner-product folding vectors `li` and `ri`\n        let remaining = chunks.len();\n        let rounds = remaining / 2;\n        let mut li = Vec::with_capacity(rounds);\n        let mut ri = Vec::with_capacity(rounds);\n        for _ in 0..rounds {\n            li.push(parse_point(&mut chunks)?);\n            ri.push(parse_point(&mut chunks)?);\n        }\n\n'), (RP, '        if tuples.into_buffer().len() > 0 || !chunks.remainder().is_empty() {', '        if remaining % 2 != 0 || !chunks.remainder().is_empty() {')], None),
         ('visitor-caps-the-input-length', 'fire', [(RP, '''                RangeProof::from_bytes(v).map_err(|_| serde::de::Error::custom("deserialization error"))''', '''                if v.len() > 801 {
                     return Err(serde::de::Error::custom("deserialization error"));
                 }
@@ -387,6 +421,7 @@ pub struct RangeStatement<P: Compressable + Precomputable> {''')], 'R-C07-5'),
         Q_ERRMSG, Q_RENAME_WEIGHT,
     ],
     'C17': [
+        ('opening-truncates-its-blinding-factors', 'fire', [('src/commitment_opening.rs', '    pub fn new(v: u64, r: Vec<Scalar>) -> Self {', '    pub fn new(v: u64, mut r: Vec<Scalar>) -> Self {\n        r.truncate(6);')], 'R-C17-3'),
         ('bit-length-128-allowed', 'fire', [('src/range_parameters.rs', '        if bit_length > MAX_RANGE_PROOF_BIT_LENGTH {', '        if bit_length > 2 * MAX_RANGE_PROOF_BIT_LENGTH {')], 'R-C17-1'),
         ('usize-degree-truncated', 'fire', [('src/generators/pedersen_gens.rs', '''            u8::try_from(value).map_err(|_| ProofError::InvalidArgument("Extension degree not valid".to_string()))?,''', '''            value as u8,''')], 'R-C17-1'),
         ('seed-with-two-commitments', 'fire', [('src/range_statement.rs', '        if seed_nonce.is_some() && commitments.len() > 1 {', '        if seed_nonce.is_some() && commitments.len() > 2 {')], 'R-C17-1'),
